@@ -411,20 +411,22 @@ Lemma enc_poly_nonempty e p : (1 <= length (enc_poly e p))%nat.
 Proof. destruct p as [ct rs]. unfold enc_poly. rewrite app_length, header_length. lia. Qed.
 Lemma enc_at_nonempty bo path g : (1 <= length (enc_at bo path g))%nat.
 Proof.
-  destruct g; cbn [enc_at]; try apply enc_point_nonempty; try apply enc_line_nonempty;
-    try apply enc_poly_nonempty; rewrite app_length, header_length; lia.
+  destruct g as [p|l|p|c ps|c ls|c ps|c gs]; cbn [enc_at];
+    [apply enc_point_nonempty|apply enc_line_nonempty|apply enc_poly_nonempty| | | |];
+    rewrite app_length, header_length; apply le_n_S, Nat.le_0_l.
 Qed.
 
 (* the shared shape of the three Multi* cases *)
 Lemma parses_multi {A} bo path e (f : endian -> A -> list N) (cast : geom -> outcome A)
-      (wrap : A -> geom) (mk : list A -> geom) (xs : list A) fuel :
+      (wrap : A -> geom) (g0 : geom) (mk : list A -> geom) (xs : list A) fuel :
   count_ok xs = true ->
   (forall e x, In x xs -> parses (rd_geom fuel) (f e x) (wrap x) /\ cast (wrap x) = Ok x
                           /\ (1 <= length (f e x))%nat) ->
   parses (doP n <- rd_u 4 e;
-          if n =? 0 then pret (mk [])
+          if n =? 0 then pret g0
           else doP ps <- loop n (member (rd_geom fuel) cast); pret (mk ps))
-         (put e 4 (N.of_nat (length xs)) ++ enc_members bo f path 0 xs) (mk xs).
+         (put e 4 (N.of_nat (length xs)) ++ enc_members bo f path 0 xs)
+         (match xs with [] => g0 | _ => mk xs end).
 Proof.
   intros Hc H. unfold count_ok in Hc; apply N.ltb_lt in Hc.
   eapply parses_bind; [apply parses_u32; exact Hc|].
@@ -442,7 +444,7 @@ Qed.
 Lemma depth_in (g : geom) gs :
   In g gs -> (depth g <= fold_right (fun x acc => Nat.max (depth x) acc) 0 gs)%nat.
 Proof.
-  induction gs as [|x gs IH]; cbn [In fold_right]; intros [->|H]; [lia|]. specialize (IH H). lia.
+  induction gs as [|x gs IH]; cbn [In fold_right]; [intros []|]. intros [->|H]; [lia|]. specialize (IH H). lia.
 Qed.
 
 (* ---- the round trip ---- *)
@@ -464,11 +466,10 @@ Proof.
     cbn [enc_at rd_geom]. eapply parses_bind; [apply parses_header|]. cbn beta iota.
     destruct f as [|f']; [lia|].
     destruct ps as [|p0 ps'].
-    + apply (parses_multi bo path (bo path) enc_point as_point GPoint (fun l => GMPoint ct l) [] (S f') Hcnt).
+    + apply (parses_multi bo path (bo path) enc_point as_point GPoint (GMPoint ct []) (new_multipoint 0) [] (S f') Hcnt).
       intros e x [].
-    + rewrite <- (new_multipoint_id ct (p0 :: ps')) at 2 by (congruence || assumption).
-      apply (parses_multi bo path (bo path) enc_point as_point GPoint
-               (fun l => match l with [] => GMPoint ct [] | _ => new_multipoint 0 l end) (p0 :: ps') (S f') Hcnt).
+    + rewrite <- (new_multipoint_id ct (p0 :: ps')) by (congruence || assumption).
+      apply (parses_multi bo path (bo path) enc_point as_point GPoint (GMPoint ct []) (new_multipoint 0) (p0 :: ps') (S f') Hcnt).
       intros e x Hx. apply forallb_Forall in Hok, Hwf. rewrite Forall_forall in Hok, Hwf.
       split; [|split; [reflexivity|apply enc_point_nonempty]].
       apply parses_point; [apply Hwf; exact Hx|].
@@ -478,11 +479,10 @@ Proof.
     cbn [enc_at rd_geom]. eapply parses_bind; [apply parses_header|]. cbn beta iota.
     destruct f as [|f']; [lia|].
     destruct ls as [|l0 ls'].
-    + apply (parses_multi bo path (bo path) enc_line as_line GLine (fun l => GMLine ct l) [] (S f') Hcnt).
+    + apply (parses_multi bo path (bo path) enc_line as_line GLine (GMLine ct []) (new_multiline 0) [] (S f') Hcnt).
       intros e x [].
-    + rewrite <- (new_multiline_id ct (l0 :: ls')) at 2 by (congruence || assumption).
-      apply (parses_multi bo path (bo path) enc_line as_line GLine
-               (fun l => match l with [] => GMLine ct [] | _ => new_multiline 0 l end) (l0 :: ls') (S f') Hcnt).
+    + rewrite <- (new_multiline_id ct (l0 :: ls')) by (congruence || assumption).
+      apply (parses_multi bo path (bo path) enc_line as_line GLine (GMLine ct []) (new_multiline 0) (l0 :: ls') (S f') Hcnt).
       intros e x Hx. apply forallb_Forall in Hok, Hwf. rewrite Forall_forall in Hok, Hwf.
       split; [|split; [reflexivity|apply enc_line_nonempty]].
       apply parses_line; [apply Hwf; exact Hx|].
@@ -492,11 +492,10 @@ Proof.
     cbn [enc_at rd_geom]. eapply parses_bind; [apply parses_header|]. cbn beta iota.
     destruct f as [|f']; [lia|].
     destruct ps as [|p0 ps'].
-    + apply (parses_multi bo path (bo path) enc_poly as_poly GPoly (fun l => GMPoly ct l) [] (S f') Hcnt).
+    + apply (parses_multi bo path (bo path) enc_poly as_poly GPoly (GMPoly ct []) (new_multipoly 0) [] (S f') Hcnt).
       intros e x [].
-    + rewrite <- (new_multipoly_id ct (p0 :: ps')) at 2 by (congruence || assumption).
-      apply (parses_multi bo path (bo path) enc_poly as_poly GPoly
-               (fun l => match l with [] => GMPoly ct [] | _ => new_multipoly 0 l end) (p0 :: ps') (S f') Hcnt).
+    + rewrite <- (new_multipoly_id ct (p0 :: ps')) by (congruence || assumption).
+      apply (parses_multi bo path (bo path) enc_poly as_poly GPoly (GMPoly ct []) (new_multipoly 0) (p0 :: ps') (S f') Hcnt).
       intros e x Hx. apply forallb_Forall in Hok, Hwf. rewrite Forall_forall in Hok, Hwf.
       split; [|split; [reflexivity|apply enc_poly_nonempty]].
       apply parses_poly; [apply Hwf; exact Hx|].
@@ -534,4 +533,78 @@ Proof.
       eapply parses_bind; [apply loop_parses; assumption|].
       rewrite (new_collection_id ct (g0 :: gs')); [apply parses_ret|congruence|].
       apply forallb_Forall. exact Hok.
+Qed.
+
+(* ---- fuel: the decoder is started with more fuel than the nesting depth of any encoding ---- *)
+Lemma enc_coll_members_depth bo path (gs : list geom) :
+  (forall g, In g gs -> forall pth, (depth g <= length (enc_at bo pth g))%nat) ->
+  forall i,
+  (fold_right (fun x acc => Nat.max (depth x) acc) 0 gs <=
+   length ((fix go (i : nat) (l : list geom) {struct l} : list N :=
+              match l with [] => [] | x :: r => enc_at bo (i :: path) x ++ go (S i) r end) i gs))%nat.
+Proof.
+  induction gs as [|x gs IH]; intros H i; cbn [fold_right]; [lia|].
+  rewrite app_length.
+  pose proof (H x (or_introl eq_refl) (i :: path)).
+  specialize (IH (fun g Hg => H g (or_intror Hg)) (S i)). lia.
+Qed.
+
+Lemma depth_le_enc bo : forall (g : geom) path, (depth g <= length (enc_at bo path g))%nat.
+Proof.
+  induction g as [p|l|p|c ps|c ls|c ps|c gs IH] using geomT_ind'; intros path; cbn [depth].
+  - apply enc_at_nonempty.
+  - apply enc_at_nonempty.
+  - apply enc_at_nonempty.
+  - cbn [enc_at]. rewrite !app_length, header_length, put_length. lia.
+  - cbn [enc_at]. rewrite !app_length, header_length, put_length. lia.
+  - cbn [enc_at]. rewrite !app_length, header_length, put_length. lia.
+  - cbn [enc_at]. rewrite !app_length, header_length, put_length.
+    rewrite Forall_forall in IH.
+    pose proof (enc_coll_members_depth bo path gs (fun g Hg pth => IH g Hg pth) 0%nat). lia.
+Qed.
+
+Lemma wf_split (g : geom) : wf_wkb g = true -> geom_ok (N.eqb 0) (geom_ct g) g = true /\ geom_wf g = true.
+Proof. unfold wf_wkb, consistent. intros H. apply andb_prop in H. exact H. Qed.
+
+(* decode (encode g ++ rest) = (g, rest), for every per-element byte-order choice *)
+Lemma wkb_roundtrip_lemma bo (g : geom) rest :
+  wf_wkb g = true -> dec (enc_bo bo g ++ rest) = Ok (g, rest).
+Proof.
+  intros H. destruct (wf_split g H) as [Hok Hwf].
+  unfold dec, dec_full, enc_bo.
+  assert (Hd : (depth g <= S (length (enc_at bo [] g ++ rest)))%nat).
+  { pose proof (depth_le_enc bo g []). rewrite app_length. lia. }
+  destruct (parses_geom bo g (geom_ct g) Hok Hwf _ [] Hd rest 0) as [a' E].
+  rewrite E. reflexivity.
+Qed.
+
+Lemma wkb_endian_independent_lemma bo (g : geom) rest :
+  wf_wkb g = true -> dec (enc_bo bo g ++ rest) = dec (enc g ++ rest).
+Proof. intros H. unfold enc. rewrite !wkb_roundtrip_lemma by exact H. reflexivity. Qed.
+
+Lemma wkb_reencode_lemma (g g' : geom) r :
+  wf_wkb g = true -> dec (enc g) = Ok (g', r) -> enc g' = enc g /\ r = [].
+Proof.
+  intros H E. rewrite <- (app_nil_r (enc g)) in E. unfold enc in E.
+  rewrite wkb_roundtrip_lemma in E by exact H. inversion E; subst. split; reflexivity.
+Qed.
+
+(* two well-formed values with the same encoding (under any byte orders) are equal;
+   more generally no encoding is a proper prefix of a different value's encoding *)
+Lemma wkb_injective_lemma bo1 bo2 (g h : geom) r1 r2 :
+  wf_wkb g = true -> wf_wkb h = true -> enc_bo bo1 g ++ r1 = enc_bo bo2 h ++ r2 -> g = h /\ r1 = r2.
+Proof.
+  intros Hg Hh E. pose proof (wkb_roundtrip_lemma bo1 g r1 Hg) as E1.
+  rewrite E in E1. rewrite (wkb_roundtrip_lemma bo2 h r2 Hh) in E1. inversion E1; subst. auto.
+Qed.
+
+Lemma gtype_eqb_eq a b : gtype_eqb a b = true <-> a = b.
+Proof. destruct a, b; simpl; split; intros; try reflexivity; discriminate. Qed.
+
+Lemma scan_value_lemma t (g : geom) :
+  wf_wkb g = true ->
+  scan t (enc g) = if gtype_eqb (geom_type g) t then Ok g else Err EMemberType.
+Proof.
+  intros H. unfold scan. rewrite <- (app_nil_r (enc g)). unfold enc.
+  rewrite wkb_roundtrip_lemma by exact H. reflexivity.
 Qed.
